@@ -14,9 +14,9 @@ type Asm struct{ pb *neovm.ParamsBuilder }
 func NewAsm() *Asm { return &Asm{pb: neovm.NewParamsBuilder(new(bytes.Buffer))} }
 
 func (a *Asm) Op(op neovm.OpCode) *Asm { a.pb.Emit(op); return a }
-func (a *Asm) Push(b []byte) *Asm     { a.pb.EmitPushByteArray(b); return a }
-func (a *Asm) PushInt(n int64) *Asm   { a.pb.EmitPushInteger(big.NewInt(n)); return a }
-func (a *Asm) PushBool(v bool) *Asm   { a.pb.EmitPushBool(v); return a }
+func (a *Asm) Push(b []byte) *Asm      { a.pb.EmitPushByteArray(b); return a }
+func (a *Asm) PushInt(n int64) *Asm    { a.pb.EmitPushInteger(big.NewInt(n)); return a }
+func (a *Asm) PushBool(v bool) *Asm    { a.pb.EmitPushBool(v); return a }
 func (a *Asm) Raw(b []byte) *Asm {
 	for _, x := range b {
 		a.pb.Emit(neovm.OpCode(x))
@@ -29,8 +29,8 @@ func (a *Asm) Syscall(name string) *Asm {
 	return a
 }
 func (a *Asm) AppCall(addr common.Address) *Asm { a.pb.EmitPushCall(addr[:]); return a }
-func (a *Asm) Bytes() []byte                   { return a.pb.ToArray() }
-func (a *Asm) Len() int                        { return len(a.pb.ToArray()) }
+func (a *Asm) Bytes() []byte                    { return a.pb.ToArray() }
+func (a *Asm) Len() int                         { return len(a.pb.ToArray()) }
 
 // KVContractCode is a deployable NeoVM contract: called with [value, key, op] on the
 // evaluation stack (op on top); op=true => Storage.Put(key,value), op=false => Storage.Delete(key).
